@@ -13,7 +13,9 @@ Metamorphic / differential oracle only (the hash formula is never re-implemented
 (d) Python ``type_hash``, C ``HASH_<NAME>``, JavaScript ``RTMA.HASH.<NAME>``, MATLAB ``RTMA.hash.<name>`` all carry the
     first 8 hex digits of the parser's digest, for every message, signal and reserved id - also for identifiers of every
     length in {1, 2, 31, 32, 40, 45, 46, 47, 48, 63} (a covering closure is compiled in every run; the back ends pad names
-    to fixed column widths);
+    to fixed column widths) and for names that start with the name of an output table / prefix of a back end followed by '_'
+    (hash_, HASH_, MT_, MID_, HID_, MDF_, SDF_, typedefs_, defines_, constants_, aliases_, ...: vlib.defgen.TABLE_PREFIXES), with
+    and without a second definition named like the remainder (covering closure in every run, drawn names in the random ones);
 (e) ``Client.send_message`` stamps the class's ``type_hash`` into the version (``reserved``) field of the outgoing header:
     shipped core classes in process (plain and timecode header), generated classes compiled from generated closures and
     imported in a fresh interpreter; the value on the wire equals the parser's digest prefix.  Hypothesis-drawn sequences
@@ -864,6 +866,14 @@ def shard(idx: int, seed: int, n_meta: int, out_every: int, n_proc: int, n_stamp
         if idx == 1:
             sequence_table(res)
         # every reserved field name in a message (shards 0-6) and in a struct (7-13)
+        if idx % 4 == 2 or not quick:
+            # definitions named <table>_<rest> for every output table / prefix of the four back ends (hash_, HASH_, MT_, MID_, HID_,
+            # MDF_, SDF_, typedefs_, defines_, constants_, aliases_ ...), with and without another definition named <rest>
+            res.evaluations += 1
+            check_outputs(G.build_prefix_cover_program(rnd, import_coredefs=(idx == 2)), res)
+            res.count("prefix-cover-closures-compiled")
+            for pre in G.TABLE_PREFIXES:
+                res.shape("output-table-prefix", pre, idx == 2)
         if idx < 2 * len(G.RESERVED_FIELD_NAMES):
             res.evaluations += 1
             q = nearmiss_case(idx)
